@@ -231,7 +231,9 @@ Definition judge_sup (links : list (option nat)) (seen : list tev) (s : nat) (x 
          Nat.eqb (count_sup s (fun y => is_terminal y && Nat.eqb (about y) c) seen) 0
          && match ending_of c seen EndNone, st, reason with
             | EndGraceful, true, Some 1 =>
+                (* "Drained": a drain was requested, or a stop that carried this very reason *)
                 has_ev (fun e => match e with TDrainReq j => Nat.eqb j c | _ => false end) seen
+                || has_ev (fun e => match e with TStopReq j r' => Nat.eqb j c && onat_eqb (Some 1) r' | _ => false end) seen
             | EndGraceful, true, r =>
                 has_ev (fun e => match e with TStopReq j r' => Nat.eqb j c && onat_eqb r r' | _ => false end) seen
             | EndNone, false, Some 0 =>
